@@ -21,7 +21,7 @@ P = {
  'C11': ('model_checking', 'All schedules and deadline placements of 1-2 wait_n callers over 1-5 objects (stack and heap bookkeeping) against notifiers/decrementers/signallers; readiness, timeout, clean-up and mutex-protocol oracles.', '7 C11', 'bounded exhaustive schedule + clock exploration'),
  'C12': ('model_checking', 'Complete interleavings (no preemption bound) of one waiter and 1-3 posters on nsync_semaphore_futex.c with every placement of up to k injected EINTR/EAGAIN/early-ETIMEDOUT returns.', '7 C12', 'complete interleaving exploration + fault injection enumeration on a futex model'),
  'C13': ('model_checking', 'All schedules of the reference-count pattern and of wakers against wait_n / cancellable waits; every instrumented access, atomic and futex argument checked against freed blocks and dead stack frames.', '7 C13', 'bounded exhaustive schedule exploration + memory-liveness monitor'),
- 'C14': ('model_checking', 'All schedules (P<=2..3) of a victim and 2-3 bargers with LONG_WAIT_THRESHOLD reduced to 1..3 through the guarded hook; overtaking oracle at nsync\'s own acquisition events. The threshold-30 behaviour follows only by the parametricity of the code in that constant.', '7 C14', 'bounded exhaustive schedule exploration with reduced threshold'),
+ 'C14': ('model_checking', 'All schedules (P<=2..3) of a victim and 2-3 bargers with LONG_WAIT_THRESHOLD reduced to 1..3 through the guarded hook; overtaking oracle at nsync\'s own acquisition events; and at the real threshold 30, fifteen scripted adversarial strategies (a fresh thread takes the mutex in every window between the victim\'s wake-up and its next attempt) with all single deviations from them.', '7 C14', 'bounded exhaustive schedule exploration with reduced threshold'),
  'C15': ('exploration', 'Complete table entry point x boundary deadline x event state x {C, C++} on the real futex, clock and kernel, each case in a forked child.', '7 C15', 'exhaustive enumeration of a finite case table on the real platform'),
  'C16': ('model_checking', 'All schedules of lockers/waiters/wakers with a thread calling the debug-state functions (all C01/C02/C04 oracles in force), and every n in 0..80 x 0..3 queued waiters x 4 functions against the untruncated reference with exact-size buffers.', '7 C16', 'bounded exhaustive schedule exploration + exhaustive enumeration of buffer sizes'),
  'C17': ('model_checking', 'Breadth-first search over ALL reachable abstract states of 5 (thorough: 6) elements and 2 lists; every applicable operation from every state executed by the real dll.c; traversals, links and predicted canonical state compared after every step.', '7 C17', 'explicit-state BFS with a reference model; every transition executed on the implementation'),
